@@ -9,6 +9,7 @@ import (
 
 	"github.com/gnolang/gno/tm2/pkg/bft/types"
 	"pgregory.net/rapid"
+	cstypes "github.com/gnolang/gno/tm2/pkg/bft/consensus/types"
 	ec "verif/eng/cons"
 	"verif/vk"
 )
@@ -30,7 +31,7 @@ type c31Case struct {
 	Actions []c31Action `json:"actions"`
 }
 
-var c31Kinds = []string{"deliver", "deliver", "deliver", "flush", "flush", "flushgroup", "flushgroup", "flushgroup", "drop", "dropto", "dup", "fire", "fire", "fireall", "byzvote", "byzvote", "byzvote", "byzprop", "byzprop"}
+var c31Kinds = []string{"flushkind", "flushkind", "flushkind", "flushkind", "flushkind", "flushkind", "firegroup", "firegroup", "deliver", "deliver", "deliver", "flush", "flush", "flushgroup", "flushgroup", "flushgroup", "drop", "dropto", "dup", "fire", "fire", "fireall", "byzvote", "byzvote", "byzvote", "byzprop", "byzprop"}
 
 func c31Draw(rt *rapid.T) c31Case {
 	n := rapid.SampledFrom([]int{4, 4, 5, 7}).Draw(rt, "n")
@@ -60,19 +61,49 @@ func c31Draw(rt *rapid.T) c31Case {
 	return c
 }
 
-func c31Exec(ctx *vk.Ctx, c c31Case) error {
-	net, err := ec.NewNet(c.Powers, c.Byz)
-	if err != nil {
-		return fmt.Errorf("harness: %v", err)
+
+// c31AbandonedCommit reports whether every honest node that failed to make
+// progress is in this exact situation: at its current height it holds +2/3
+// precommits for a block at an earlier round (so it had entered the commit
+// step), but a round skip (+2/3-any votes of a later round) took it out of
+// the commit step; nothing re-triggers the commit once its peers have moved on.
+func c31AbandonedCommit(net *ec.Net, from map[int]int64) bool {
+	stuck := 0
+	for _, i := range net.Honest() {
+		nd := net.Nodes[i]
+		if nd.BS.Height() > from[i] {
+			continue
+		}
+		stuck++
+		rs := nd.CS.GetRoundState()
+		if rs.Votes == nil || rs.Step == cstypes.RoundStepCommit {
+			return false
+		}
+		found := false
+		for r := 0; r < rs.Round; r++ {
+			if pc := rs.Votes.Precommits(r); pc != nil {
+				if bid, ok := pc.TwoThirdsMajority(); ok && len(bid.Hash) != 0 {
+					found = true
+				}
+			}
+		}
+		if !found {
+			return false
+		}
 	}
-	net.Start()
+	return stuck > 0
+}
+
+// c31Apply applies schedule actions to the network, checking safety after each.
+func c31Apply(ctx *vk.Ctx, net *ec.Net, byzMask []bool, actions []c31Action, equiv *int) error {
 	honest := net.Honest()
 	var byz []int
-	for i, b := range c.Byz {
+	for i, b := range byzMask {
 		if b {
 			byz = append(byz, i)
 		}
 	}
+	c := struct{ Byz []bool }{byzMask}
 	group := func(mask int) map[int]bool {
 		g := map[int]bool{}
 		for bit, i := range honest {
@@ -82,9 +113,8 @@ func c31Exec(ctx *vk.Ctx, c c31Case) error {
 		}
 		return g
 	}
-	equivDelivered := 0
 	const heightCap = 4
-	for ai, a := range c.Actions {
+	for ai, a := range actions {
 		over := false
 		for _, h := range net.Heights() {
 			if h >= heightCap {
@@ -104,6 +134,23 @@ func c31Exec(ctx *vk.Ctx, c c31Case) error {
 			net.FlushWithin(g, false, 200)
 		case "flushgroup":
 			net.FlushWithin(group(a.A), a.B%2 == 0, 400)
+		case "flushkind":
+			kinds := []int{1, 2, 4, 3, 6, 7, 1, 2, 4}[a.A%9]
+			dst, src := group(a.B), group(a.C)
+			if a.B%5 == 0 {
+				dst = group(1<<12 - 1)
+			}
+			if a.C%3 == 0 {
+				src = group(1<<12 - 1)
+			}
+			net.FlushKinds(kinds, dst, src, 400)
+		case "firegroup":
+			g := group(a.A)
+			for _, i := range honest {
+				if g[i] {
+					net.Fire(i)
+				}
+			}
 		case "drop":
 			if len(net.Pool) > 0 {
 				net.Drop(a.A % len(net.Pool))
@@ -205,7 +252,7 @@ func c31Exec(ctx *vk.Ctx, c c31Case) error {
 					net.SendTo(p, bp, d2)
 				}
 				if len(d1) > 0 {
-					equivDelivered++
+					*equiv++
 				}
 			}
 			ctx.Class("byz-proposal-injected")
@@ -214,16 +261,38 @@ func c31Exec(ctx *vk.Ctx, c c31Case) error {
 			return fmt.Errorf("after action %d (%+v): %v", ai, a, err)
 		}
 	}
+	return nil
+}
+
+func c31Exec(ctx *vk.Ctx, c c31Case) error {
+	net, err := ec.NewNet(c.Powers, c.Byz)
+	if err != nil {
+		return fmt.Errorf("harness: %v", err)
+	}
+	net.Start()
+	nbyz := 0
+	for _, b := range c.Byz {
+		if b {
+			nbyz++
+		}
+	}
+	equivDelivered := 0
+	if err := c31Apply(ctx, net, c.Byz, c.Actions, &equivDelivered); err != nil {
+		return err
+	}
 	ctx.ClassIf(net.MaxRoundSeen >= 1, "reached-round>=1")
 	ctx.ClassIf(net.LockedAtRound1, "locked-at-round>=1")
 	ctx.ClassIf(equivDelivered > 0, "equivocating-proposal")
-	ctx.ClassIf(len(byz) > 0, "has-byzantine")
+	ctx.ClassIf(nbyz > 0, "has-byzantine")
 	ctx.NTIf(net.LockedAtRound1 || equivDelivered > 0)
 	// bounded liveness: synchronous, fault-free suffix
 	from := net.Heights()
 	ok, iters := net.SyncSuffix(from, 1, 40*len(c.Powers))
 	if err := net.CheckSafety(); err != nil {
 		return fmt.Errorf("in the synchronous suffix: %v", err)
+	}
+	if !ok && c31AbandonedCommit(net, from) && ctx.Known("commit-abandoned-by-round-skip") {
+		ok = true
 	}
 	if !ok {
 		if os.Getenv("VERIF_DEBUG") != "" {
@@ -244,7 +313,227 @@ func c31Exec(ctx *vk.Ctx, c c31Case) error {
 func TestC31_Safety(t *testing.T) {
 	vk.Run(t, vk.Spec[c31Case]{
 		ID: "C31", Name: "TestC31_Safety",
-		Rule: "rapid: n in {4,5,7} validators with powers 1-3, a byzantine subset with < 1/3 power, and a schedule of 20-260 actions over real ConsensusStates driven by the step driver: deliver one/flush to a node/flush inside a partition, drop, cut a node off, duplicate, fire one/all armed timeouts, byzantine votes (nil / current proposal / locked block / fake id, current or previous round, to a subset) and equivocating proposals when a byzantine validator is the proposer; agreement and no-double-sign are checked after every action, then a synchronous fault-free suffix must make every honest node commit one more height; non-trivial = an honest node was locked at round >= 1 or an equivocating proposal was sent to two disjoint honest groups",
+		Rule: "rapid: n in {4,5,7} validators with powers 1-3, a byzantine subset with < 1/3 power, and a schedule of 20-260 actions over real ConsensusStates driven by the step driver: deliver one/flush to a node/flush inside a partition/flush one message kind (proposal+parts, prevotes, precommits) from a source group to a destination group, drop, cut a node off, duplicate, fire one/all armed timeouts, byzantine votes (nil / current proposal / locked block / fake id, current or previous round, to a subset) and equivocating proposals when a byzantine validator is the proposer; agreement and no-double-sign are checked after every action, then a synchronous fault-free suffix must make every honest node commit one more height; non-trivial = an honest node was locked at round >= 1 or an equivocating proposal was sent to two disjoint honest groups",
 		Draw: c31Draw, Exec: c31Exec,
+	})
+}
+
+// ---------------------------------------------------------------------------
+// Directed schedules: the situations in which the locking rules matter are a
+// tiny region of the schedule space, so this generator constructs them — a
+// polka forms for block A at round 0 while one validator (preferably the
+// proposer of round 1) misses it, a subset S1 of nodes sees +2/3 precommits
+// for A and commits, the rest time out into round 1 where a different block B
+// can be proposed — and surrounds the template with drawn noise.
+
+type c31Directed struct {
+	Powers []int64     `json:"powers"`
+	Miss   int         `json:"miss"`   // which honest node misses the round-0 proposal: 0 = the round-1 proposer, k>0 = honest[k-1]
+	S1     int         `json:"s1"`     // mask of nodes that receive all round-0 precommits
+	Leak   int         `json:"leak"`   // mask of extra prevote deliveries to the missing node (0 = none)
+	Noise  []c31Action `json:"noise"`  // actions inserted between template steps
+	Where  []int       `json:"where"`  // step index before which each noise action runs
+	Tail   []c31Action `json:"tail"`   // random actions after the template
+	Rounds int         `json:"rounds"` // how many further rounds to push through with "flush everything then fire all"
+}
+
+func c31DirectedExec(ctx *vk.Ctx, c c31Directed) error {
+	byzMask := make([]bool, len(c.Powers))
+	net, err := ec.NewNet(c.Powers, byzMask)
+	if err != nil {
+		return fmt.Errorf("harness: %v", err)
+	}
+	net.Start()
+	honest := net.Honest()
+	all := map[int]bool{}
+	for _, i := range honest {
+		all[i] = true
+	}
+	group := func(mask int) map[int]bool {
+		g := map[int]bool{}
+		for bit, i := range honest {
+			if mask&(1<<uint(bit)) != 0 {
+				g[i] = true
+			}
+		}
+		return g
+	}
+	equiv := 0
+	noiseAt := func(step int) error {
+		for k, w := range c.Where {
+			if w == step && k < len(c.Noise) {
+				if err := c31Apply(ctx, net, byzMask, c.Noise[k:k+1], &equiv); err != nil {
+					return err
+				}
+			}
+		}
+		return nil
+	}
+	check := func(step string) error {
+		if err := net.CheckSafety(); err != nil {
+			return fmt.Errorf("directed step %s: %v", step, err)
+		}
+		return nil
+	}
+	// step 0: everybody starts height 1 round 0
+	for _, i := range honest {
+		net.Fire(i) // NewHeight -> NewRound/Propose
+	}
+	miss := -1
+	if c.Miss == 0 {
+		miss = net.ProposerAt(honest[0], 1)
+		if p0 := net.ProposerAt(honest[0], 0); miss == p0 {
+			miss = -1 // same proposer in both rounds: nobody can miss its own proposal
+		}
+	} else {
+		miss = honest[(c.Miss-1)%len(honest)]
+	}
+	rest := map[int]bool{}
+	for _, i := range honest {
+		if i != miss {
+			rest[i] = true
+		}
+	}
+	if err := noiseAt(1); err != nil {
+		return err
+	}
+	// step 1: proposal and parts reach everybody except the missing node, which times out of propose
+	net.FlushKinds(1, rest, all, 400)
+	if miss >= 0 {
+		net.Fire(miss) // propose timeout -> prevote nil
+	}
+	if err := check("1"); err != nil {
+		return err
+	}
+	if err := noiseAt(2); err != nil {
+		return err
+	}
+	// step 2: prevotes reach the rest (polka for A -> lock A, precommit A); the missing node only gets a leak
+	net.FlushKinds(2, rest, all, 400)
+	if miss >= 0 {
+		net.FlushKinds(2, map[int]bool{miss: true}, group(c.Leak), 400)
+		net.Fire(miss) // prevote-wait timeout if armed
+	}
+	if err := check("2"); err != nil {
+		return err
+	}
+	if err := noiseAt(3); err != nil {
+		return err
+	}
+	// step 3: precommits reach only S1 (they commit A); everybody else gets them from a strict subset
+	s1 := group(c.S1)
+	net.FlushKinds(4, s1, all, 400)
+	if err := check("3"); err != nil {
+		return err
+	}
+	locked := 0
+	for _, i := range honest {
+		if rs := net.Nodes[i].CS.GetRoundState(); rs.Height == 1 && rs.LockedBlock != nil {
+			locked++
+		}
+	}
+	committed := 0
+	for _, h := range net.Heights() {
+		if h >= 1 {
+			committed++
+		}
+	}
+	ctx.ClassIf(locked > 0, "some-locked-after-round0")
+	ctx.ClassIf(committed > 0 && committed < len(honest), "split-commit")
+	if err := noiseAt(4); err != nil {
+		return err
+	}
+	// step 4: the others see only part of the precommits and time out into round 1
+	notS1 := map[int]bool{}
+	for _, i := range honest {
+		if !s1[i] {
+			notS1[i] = true
+		}
+	}
+	net.FlushKinds(4, notS1, notS1, 400)
+	for _, i := range honest {
+		if notS1[i] {
+			net.Fire(i)
+		}
+	}
+	if err := check("4"); err != nil {
+		return err
+	}
+	// further rounds: synchronous among the not-yet-committed nodes only
+	for r := 0; r < c.Rounds; r++ {
+		if err := noiseAt(5 + r); err != nil {
+			return err
+		}
+		net.FlushKinds(7, notS1, notS1, 2000)
+		if err := check(fmt.Sprintf("round+%d flush", r)); err != nil {
+			return err
+		}
+		for _, i := range honest {
+			if notS1[i] {
+				net.Fire(i)
+			}
+		}
+		if err := check(fmt.Sprintf("round+%d fire", r)); err != nil {
+			return err
+		}
+	}
+	if err := c31Apply(ctx, net, byzMask, c.Tail, &equiv); err != nil {
+		return err
+	}
+	ctx.ClassIf(net.MaxRoundSeen >= 1, "reached-round>=1")
+	ctx.ClassIf(net.LockedAtRound1, "locked-at-round>=1")
+	ctx.NTIf(net.LockedAtRound1 && committed > 0 && committed < len(honest))
+	from := net.Heights()
+	ok, iters := net.SyncSuffix(from, 1, 40*len(c.Powers))
+	if err := net.CheckSafety(); err != nil {
+		return fmt.Errorf("in the synchronous suffix: %v", err)
+	}
+	if !ok && c31AbandonedCommit(net, from) && ctx.Known("commit-abandoned-by-round-skip") {
+		ok = true
+	}
+	if !ok {
+		if os.Getenv("VERIF_DEBUG") != "" {
+			for _, i := range net.Honest() {
+				rs := net.Nodes[i].CS.GetRoundState()
+				fmt.Printf("node %d store=%d: %s\n", i, net.Nodes[i].BS.Height(), rs.StringIndented("  "))
+				if tk, ok := net.Nodes[i].Ticker.Pending(); ok {
+					fmt.Printf("  pending timeout %+v\n", tk)
+				}
+			}
+		}
+		return fmt.Errorf("no progress in the synchronous suffix (%d iterations): before %v after %v", iters, from, net.Heights())
+	}
+	return nil
+}
+
+func TestC31_Directed(t *testing.T) {
+	vk.Run(t, vk.Spec[c31Directed]{
+		ID: "C31", Name: "TestC31_Directed",
+		Rule: "rapid: directed schedules over 4-5 honest validators with drawn powers: round 0 forms a polka for block A while a drawn validator (by default the round-1 proposer) misses the proposal, a drawn subset S1 receives all precommits (and commits A), the others receive only their own group's precommits and time out into round 1, then 1-3 further synchronous rounds among the uncommitted nodes; drawn noise actions are inserted between the steps and a random tail follows; safety after every step, then the synchronous suffix; non-trivial = some node was locked at round >= 1 while a strict subset had already committed",
+		Draw: func(rt *rapid.T) c31Directed {
+			n := rapid.SampledFrom([]int{4, 4, 5}).Draw(rt, "n")
+			c := c31Directed{Powers: make([]int64, n)}
+			for i := range c.Powers {
+				c.Powers[i] = int64(rapid.SampledFrom([]int{1, 1, 1, 2}).Draw(rt, "power"))
+			}
+			c.Miss = rapid.SampledFrom([]int{0, 0, 0, 1, 2, 3, 4}).Draw(rt, "miss")
+			c.S1 = rapid.IntRange(0, 1<<uint(n)-1).Draw(rt, "s1")
+			if rapid.IntRange(0, 2).Draw(rt, "single") > 0 {
+				c.S1 = 1 << uint(rapid.IntRange(0, n-1).Draw(rt, "s1bit"))
+			}
+			c.Leak = rapid.SampledFrom([]int{0, 0, 1, 2, 3, 5, 6}).Draw(rt, "leak")
+			c.Rounds = rapid.IntRange(1, 3).Draw(rt, "rounds")
+			nn := rapid.IntRange(0, 3).Draw(rt, "nnoise")
+			for i := 0; i < nn; i++ {
+				c.Noise = append(c.Noise, c31Action{K: rapid.SampledFrom(c31Kinds).Draw(rt, "k"), A: rapid.IntRange(0, 1<<12).Draw(rt, "a"), B: rapid.IntRange(0, 1<<12).Draw(rt, "b"), C: rapid.IntRange(0, 1<<12).Draw(rt, "c")})
+				c.Where = append(c.Where, rapid.IntRange(1, 7).Draw(rt, "where"))
+			}
+			nt := rapid.IntRange(0, 30).Draw(rt, "ntail")
+			for i := 0; i < nt; i++ {
+				c.Tail = append(c.Tail, c31Action{K: rapid.SampledFrom(c31Kinds).Draw(rt, "k"), A: rapid.IntRange(0, 1<<12).Draw(rt, "a"), B: rapid.IntRange(0, 1<<12).Draw(rt, "b"), C: rapid.IntRange(0, 1<<12).Draw(rt, "c")})
+			}
+			return c
+		},
+		Exec: c31DirectedExec,
 	})
 }
